@@ -130,12 +130,15 @@ def normal_events(ids, tier):
         e["fnr6"] = [fx6(x) for x in ds.fnr(np.array([mp + z * sp for z in zs], dtype=tdt))]
         e["fpr6"] = [fx6(x) for x in ds.fpr(np.array([mun + z * sn for z in zs], dtype=tdt))]
         if tdt is np.float32:
-            # far tails stay positive / invertible with float32 thresholds too
-            tt = np.array([mp - 9.0 * sp], dtype=np.float32) if float(np.float32(mp - 9.0 * sp)) == mp - 9.0 * sp else None
-            if tt is not None:
-                v = float(np.asarray(ds.fnr(tt))[0])
-                if not (0.0 < v < 1e-15 and abs(float(ds.threshold_at_fnr(v)) - float(tt[0])) < 1e-6 * sp):
-                    raise AssertionError(f"float32 threshold in the far tail: fnr={v}")
+            # with float32 thresholds, too, rates in the far tails stay strictly inside (0, 1) and invert back
+            for z_, fn_, inv_, m_, s_ in ((-9.0, ds.fnr, ds.threshold_at_fnr, mp, sp), (6.0, ds.fnr, ds.threshold_at_fnr, mp, sp),
+                                          (9.0, ds.fpr, ds.threshold_at_fpr, mun, sn), (-6.0, ds.fpr, ds.threshold_at_fpr, mun, sn)):
+                t_ = m_ + z_ * s_
+                if float(np.float32(t_)) != t_:
+                    continue
+                v = float(np.asarray(fn_(np.array([t_], dtype=np.float32)))[0])
+                if not (0.0 < v < 1.0 and abs(float(inv_(v)) - t_) < 1e-4 * s_):
+                    raise AssertionError(f"float32 threshold in the far tail (z={z_}): rate={v!r}")
         # round trips, relative in the tails: compare r with fnr(threshold_at_fnr(r)) scaled
         rates = [0.5, 0.1, 0.9, 1e-3, 1e-6, 1e-9, 1e-12, 1 - 1e-6]
         rt = []
